@@ -9,7 +9,10 @@ Shape (C): full Cartesian products
       judged against the reference at the radian value: first centre group)}
 executed on PixelAperture.to_mask / .bbox / .area, compared with mcphot/ref/geometry.py
 (polygon∩disk line integral; counted sub-pixel centres with an ambiguity interval; rational
-minimal-box rule), and -- always exhaustive -- all small integer boxes x all small image shapes for
+minimal-box rule), on ALL HISTORIES of public calls up to a depth on one aperture object (to_mask / area_overlap /
+do_photometry with and without a pixel mask, every ApertureMask method on the masks handed out, writes into returned
+arrays, copies, children, ApertureStats, positions re-assignment: afterwards every read must be that of a fresh aperture),
+and -- always exhaustive -- all small integer boxes x all small image shapes for
 get_overlap_slices / to_image / cutout, all pairs of small boxes for union / intersection and a
 product of pixel-edge-hugging floats for BoundingBox.from_float.
 """
@@ -36,7 +39,17 @@ RULE = ('full Cartesian product per shape family: size x axis-ratio x angle x an
         'A representation case is non-trivial when the angle is not 0. '
         'A mask case is non-trivial when its data contain a weight strictly between 0 and 1 (exact / subpixel) or at '
         'least one pixel equal to 1 (center); a bounding-box case and a parameter re-assignment case (consecutive shapes of a unit, size <= 30: every read -- bbox, area, to_mask exact / center / subpixel -- fills the caches, then every parameter and the positions are assigned ONE AT A TIME, positions first or last, and after every single assignment that leaves a valid aperture every read is compared with a fresh aperture of the same parameters; the representation of theta before x the representation assigned x the order run through their full 6 x 6 x 2 product over 72 consecutive shapes) always; an overlap case when box and image '
-        'partially overlap (neither disjoint nor box inside image); cases are distinct product indices.')
+        'partially overlap (neither disjoint nor box inside image); cases are distinct product indices. '
+        'Histories: for 6 families x 2 shapes x 3 forms (scalar inside the image, scalar cut by two image edges, list of three positions '
+        'inside / cut / off the image) EVERY sequence of operations up to depth 2 (quick; depth 3 for the first shape of every family in list '
+        'form; thorough: depth 3 everywhere) from the alphabet {to_mask, area_overlap without / with pixel mask, do_photometry without / with '
+        'pixel mask} x {exact, center, subpixel 2} (thorough, depth 2: + subpixel 1, subpixel 5, aperture_photometry) + {ApertureMask.multiply, '
+        'cutout, get_values, to_image on the masks last handed out, caller writes into the handed-out mask, positions re-assignment, '
+        'copy-and-modify-the-copy, children ap[0] / ap[1:] / iteration (list form), ApertureStats} is executed on one fresh aperture; every '
+        'array returned by a call is overwritten by the caller (unless it is a view of the caller\'s own data or read-only); after the '
+        'history bbox, area and to_mask of every method must equal those of a freshly built aperture (bit-identical), every to_mask inside '
+        'the history likewise, and no mask handed out earlier may have changed. A history case is non-trivial when it contains an operation '
+        'other than to_mask; only the shortest failing history is reported (prefixes are enumerated as well).')
 ASSUMPTIONS = [
     'numpy elementwise arithmetic, math.atan2/sqrt and fractions.Fraction are trusted',
     'the reference (mcphot/ref/geometry.py) is validated by selftest/test_geometry.py against 1200^2 sub-sampling, '
@@ -45,6 +58,9 @@ ASSUMPTIONS = [
     'astropy.units / astropy.coordinates.Angle construct the angle objects; the radian value of an angle given in degrees / arcmin is '
     'math.radians(deg) (the reference tolerances absorb a few ulp of difference to the conversion the implementation uses)',
     'sizes are bounded by 25 px (quick) / 300 px (thorough); parameters between alphabet points are outside the bound',
+    'histories: the fresh aperture the reads are compared with is itself judged against the reference by the mask / bbox cases; state kept '
+    'outside the aperture object and the masks it returned (module level) is only seen through the operations of the alphabet; histories '
+    'longer than the stated depth and operations outside the alphabet (plotting, to_sky) are outside the bound',
 ]
 
 # ---------------------------------------------------------------------------
@@ -711,6 +727,297 @@ def run_group(acc, family, p, positions, methods, only=None, stats=None, reps=Tr
 
 
 # ---------------------------------------------------------------------------
+# histories on ONE aperture object: what to_mask / bbox / area return must not depend on which other public calls were
+# made with the aperture (or with the masks it handed out) before
+# ---------------------------------------------------------------------------
+HIST_METHODS_Q = [('exact', 5), ('center', 5), ('subpixel', 2)]
+# ('subpixel', 1) is the same mask as 'center', ('subpixel', 5) the default sub-sampling
+HIST_METHODS_T = HIST_METHODS_Q + [('subpixel', 1), ('subpixel', 5)]
+HIST_METHODS = {'Q': HIST_METHODS_Q, 'T': HIST_METHODS_T}
+HIST_IMG = (12, 11)                 # (ny, nx) of the image handed to the operations that take one
+HIST_FORMS = ['scalar-inside', 'scalar-cut', 'list']
+HIST_SHIFT = (1.25, -0.5)           # the 'set_positions' operation toggles between the positions and the shifted positions
+HIST_GROW = {'circle': 'r', 'cannulus': 'r_out', 'ellipse': 'a', 'eannulus': 'a_out', 'rect': 'w', 'rannulus': 'w_out'}
+# two shapes per family (second one: rotated, angle given as Quantity[deg] for the families that have one)
+HIST_SHAPES = {
+    'circle': [{'r': 1.5}, {'r': 3.3}],
+    'cannulus': [{'r_in': 0.75, 'r_out': 1.5}, {'r_in': 3.3 * 0.9, 'r_out': 3.3}],
+    'ellipse': [{'a': 2.0, 'b': 1.0, 'theta': PI / 8}, {'a': 3.3, 'b': 1.65, 'theta': 2.5}],
+    'eannulus': [{'a_in': 1.25, 'a_out': 2.5, 'b_out': 1.25, 'b_in': None, 'theta': 1.0},
+                 {'a_in': 1.65, 'a_out': 3.3, 'b_out': 1.65, 'b_in': 1.65 * 0.9, 'theta': 2.5}],
+    'rect': [{'w': 2.0, 'h': 1.0, 'theta': PI / 8}, {'w': 3.5, 'h': 7.0, 'theta': 2.5}],
+    'rannulus': [{'w_in': 1.5, 'w_out': 3.0, 'h_out': 1.5, 'h_in': None, 'theta': 1.0},
+                 {'w_in': 1.75, 'w_out': 3.5, 'h_out': 7.0, 'h_in': 6.3, 'theta': 2.5}],
+}
+
+
+def hist_shape(family, k):
+    p = HIST_SHAPES[family][k]
+    return with_rep(p, 'Quantity[deg]') if (k == 1 and 'theta' in p) else dict(p)
+
+
+def hist_ops(form, tag):
+    """the operation alphabet of the history block (JSON lists, simplest first)"""
+    ops = []
+    for m, s in HIST_METHODS[tag]:
+        ops.append(['to_mask', m, s])
+    for m, s in HIST_METHODS[tag]:
+        ops += [['area_overlap', m, s, 'nomask'], ['area_overlap', m, s, 'mask'],
+                ['do_photometry', m, s, 'nomask'], ['do_photometry', m, s, 'mask']]
+    ops += [['mask.multiply'], ['mask.cutout'], ['mask.get_values'], ['mask.to_image'], ['mask.write'],
+            ['set_positions'], ['copy.modify']]
+    if form == 'list':
+        ops.append(['children'])
+    ops.append(['ApertureStats'])
+    if tag == 'T':
+        ops.append(['aperture_photometry'])
+    return ops
+
+
+def _opkind(op):
+    return op[0] + ('[mask]' if op[-1] == 'mask' else '')
+
+
+def hist_config(family, k, form, seed):
+    """-> dict(p, pos (two position sets: as given / shifted), data, error, bad)"""
+    fx, fy = fracs(seed)
+    inside = [5 + fx[5], 5 + fy[5]]
+    cut = [0.5, 10 + fy[5]]                    # cut by the left and the top image edge
+    off = [-40.0, 3.0 + fx[5]]                 # no overlap with the image
+    pos = {'scalar-inside': inside, 'scalar-cut': cut, 'list': [inside, cut, off]}[form]
+    if form == 'list':
+        pos2 = [[x + HIST_SHIFT[0], y + HIST_SHIFT[1]] for x, y in pos]
+    else:
+        pos2 = [pos[0] + HIST_SHIFT[0], pos[1] + HIST_SHIFT[1]]
+    rng = np.random.default_rng(7000 + seed)
+    data = rng.normal(10.0, 3.0, size=HIST_IMG)
+    error = rng.uniform(0.5, 1.5, size=HIST_IMG)
+    yy, xx = np.indices(HIST_IMG)
+    bad = (yy + 2 * xx) % 3 == 0               # every third pixel of every row and column
+    return {'p': hist_shape(family, k), 'pos': [pos, pos2], 'data': data, 'error': error, 'bad': bad}
+
+
+def _aslist(x):
+    return list(x) if isinstance(x, (list, tuple)) else [x]
+
+
+def _mask_key(mk):
+    b = mk.bbox
+    return (b.ixmin, b.ixmax, b.iymin, b.iymax, mk.data.shape, str(mk.data.dtype), mk.data.tobytes())
+
+
+def _hreads(ap, methods):
+    """every read of the property on an aperture (scalar or list), as comparable plain data"""
+    out = {'bbox': [(b.ixmin, b.ixmax, b.iymin, b.iymax) for b in _aslist(ap.bbox)], 'area': ap.area}
+    for m, s in methods:
+        out[f'to_mask:{m}:{s}'] = [_mask_key(mk) for mk in _aslist(ap.to_mask(method=m, subpixels=s))]
+    return out
+
+
+def _hpos(pos, form):
+    return tuple(pos) if form != 'list' else [tuple(q) for q in pos]
+
+
+def _scribble(x, inputs):
+    """the caller owns what a public call returned: overwrite every returned array (unless it is documented to be a
+    view of one of OUR input arrays, or read-only)"""
+    for a in (x if isinstance(x, (tuple, list)) else [x]):
+        if isinstance(a, np.ndarray) and a.ndim > 0 and a.flags.writeable and not any(np.shares_memory(a, i) for i in inputs):
+            a[...] = -1 if a.dtype.kind != 'b' else True
+
+
+class _HistSkip(Exception):
+    pass
+
+
+def _hist_run(family, form, cfg, hist, methods, want):
+    """Execute the history on ONE fresh aperture object.  -> list of (clause, readkind, observed, expected, detail).
+    ``want(state)`` = reads of a freshly constructed aperture at position set ``state``."""
+    data, error, bad = cfg['data'].copy(), cfg['error'].copy(), cfg['bad'].copy()
+    inputs = (data, error, bad)
+    p = cfg['p']
+    state = 0
+    ap = build(family, p, _hpos(cfg['pos'][0], form))
+    held = []                       # [masks, bytes of their data when they were returned (or last written by us)]
+    mism = []
+
+    def masks_for_maskop():
+        if not held:
+            mk = _aslist(ap.to_mask())          # default arguments
+            held.append([mk, [m_.data.tobytes() for m_ in mk]])
+        return held[-1][0]
+
+    for op in hist:
+        nm = op[0]
+        if nm == 'to_mask':
+            mk = _aslist(ap.to_mask(method=op[1], subpixels=op[2]))
+            got, exp = [_mask_key(m_) for m_ in mk], want(state)[f'to_mask:{op[1]}:{op[2]}']
+            if got != exp:
+                bad_i = [i for i in range(max(len(got), len(exp))) if i >= len(got) or i >= len(exp) or got[i] != exp[i]]
+                mism.append(('history-dependent', 'to_mask', f'to_mask({op[1]!r}, subpixels={op[2]}) differs at positions {bad_i}',
+                             'the masks of a fresh aperture', f'returned by operation {op} of the history'))
+            held.append([mk, [m_.data.tobytes() for m_ in mk]])
+        elif nm == 'area_overlap':
+            _scribble(ap.area_overlap(data, mask=bad if op[3] == 'mask' else None, method=op[1], subpixels=op[2]), inputs)
+        elif nm == 'do_photometry':
+            _scribble(ap.do_photometry(data, error=error, mask=bad if op[3] == 'mask' else None, method=op[1], subpixels=op[2]), inputs)
+        elif nm == 'mask.multiply':
+            for m_ in masks_for_maskop():
+                _scribble(m_.multiply(data), inputs)
+                _scribble(m_.multiply(data, fill_value=np.nan), inputs)
+        elif nm == 'mask.cutout':
+            for m_ in masks_for_maskop():
+                _scribble(m_.cutout(data), inputs)
+                _scribble(m_.cutout(data, fill_value=np.nan, copy=True), inputs)
+        elif nm == 'mask.get_values':
+            for m_ in masks_for_maskop():
+                _scribble(m_.get_values(data), inputs)
+                _scribble(m_.get_values(data, mask=bad), inputs)
+        elif nm == 'mask.to_image':
+            for m_ in masks_for_maskop():
+                _scribble(m_.to_image(HIST_IMG), inputs)
+                m_.get_overlap_slices(HIST_IMG)
+        elif nm == 'mask.write':
+            mk = masks_for_maskop()
+            if not all(m_.data.flags.writeable for m_ in mk):
+                raise _HistSkip('returned mask data are read-only: the write operation is not available')
+            for m_ in mk:
+                m_.data[...] = 0.0
+            held[-1][1] = [m_.data.tobytes() for m_ in mk]
+        elif nm == 'set_positions':
+            state = 1 - state
+            ap.positions = _hpos(cfg['pos'][state], form)
+        elif nm == 'copy.modify':
+            c = ap.copy()
+            c.area_overlap(data, mask=bad, method='exact')
+            for m_ in _aslist(c.to_mask(method='center')):
+                _scribble(m_.data, inputs)
+            c.positions = _hpos(cfg['pos'][1 - state], form)
+            setattr(c, HIST_GROW[family], getattr(c, HIST_GROW[family]) * 1.25)
+            c.do_photometry(data, mask=bad, method='subpixel', subpixels=2)
+            for m_ in _aslist(c.to_mask(method='exact')):
+                _scribble(m_.data, inputs)
+        elif nm == 'children':
+            c = ap[0]
+            c.area_overlap(data, mask=bad, method='exact')
+            _scribble(c.to_mask(method='exact').data, inputs)
+            c = ap[1:]
+            c.do_photometry(data, mask=bad, method='center')
+            for a_ in ap:
+                _scribble(a_.to_mask(method='subpixel', subpixels=2).data, inputs)
+        elif nm == 'ApertureStats':
+            from photutils.aperture import ApertureStats
+            st = ApertureStats(data, ap, error=error, mask=bad, sum_method='exact')
+            _scribble([st.sum, st.sum_err, st.centroid, st.sum_aper_area.value], inputs)
+        elif nm == 'aperture_photometry':
+            from photutils.aperture import aperture_photometry
+            aperture_photometry(data, ap, error=error, mask=bad, method='exact')
+        else:
+            raise ValueError(op)
+    got, exp = _hreads(ap, methods), want(state)
+    for what in exp:
+        if got[what] != exp[what]:
+            if what in ('bbox', 'area'):
+                obs, ex_ = got[what], exp[what]
+            else:
+                bad_i = [i for i in range(len(exp[what])) if i >= len(got[what]) or got[what][i] != exp[what][i]] or [len(exp[what])]
+                obs, ex_ = f'{what} differs at positions {bad_i}', 'the masks of a fresh aperture'
+                try:                # (description only)
+                    g_, e_ = np.frombuffer(got[what][bad_i[0]][-1]), np.frombuffer(exp[what][bad_i[0]][-1])
+                    nd = int((g_ != e_).sum()) if g_.shape == e_.shape else -1
+                    obs += f': {nd} weights of mask {bad_i[0]} differ, sum {float(g_.sum())!r}'
+                    ex_ += f' (mask {bad_i[0]}: sum {float(e_.sum())!r})'
+                except Exception:
+                    pass
+            mism.append(('history-dependent', what.split(':')[0], obs, ex_, f'read {what} after the history'))
+    for mk, bts in held:
+        ch = [i for i, m_ in enumerate(mk) if m_.data.tobytes() != bts[i]]
+        if ch:
+            mism.append(('returned-mask-changed', 'to_mask', f'masks {ch} handed out earlier changed afterwards', 'unchanged',
+                         'a mask returned by to_mask was altered by later calls on the aperture / on other masks'))
+            break
+    return mism
+
+
+def check_history(acc, family, k, form, tag, hist, seed, cfg=None, want=None):
+    """one history (list of operations) on one fresh aperture object; afterwards bbox / area / to_mask(every method of
+    the alphabet) must be those of a freshly built aperture with the current positions, every to_mask inside the
+    history must have returned the fresh masks, and no mask handed out earlier may have changed (except by our own
+    explicit write into it).  Only the SHORTEST failing history is reported: a failing history whose one-shorter prefix
+    fails as well is a consequence of the defect already reported for the prefix (prefixes are enumerated too)."""
+    methods = HIST_METHODS[tag]
+    cfg = cfg or hist_config(family, k, form, seed)
+    if want is None:
+        memo = {}
+
+        def want(state):
+            if state not in memo:
+                memo[state] = _hreads(build(family, cfg['p'], _hpos(cfg['pos'][state], form)), methods)
+            return memo[state]
+    case = {'what': 'history', 'family': family, 'hshape': k, 'form': form, 'methods': tag, 'history': [list(op) for op in hist],
+            'params': cfg['p'], 'positions': cfg['pos'][0]}
+    last = _opkind(hist[-1])
+    try:
+        mism = _hist_run(family, form, cfg, hist, methods, want)
+    except _HistSkip as e:
+        acc.skip(str(e))
+        return
+    except Exception as e:
+        mism = [('raises', f'history:{type(e).__name__}', repr(e), 'no exception', f'history {hist}')]
+    acc.case(nontrivial=any(op[0] != 'to_mask' for op in hist), sample=case if acc.counters['history_cases'] % 1009 == 3 else None)
+    acc.counters['history_cases'] += 1
+    if acc.counters['history_cases'] % 211 == 0:
+        acc.outcome(hashlib.blake2b(repr(sorted(want(0).items())).encode() + bytes([len(hist)]), digest_size=8).hexdigest())
+    if not mism:
+        return
+    if len(hist) > 1:
+        try:
+            pre = _hist_run(family, form, cfg, hist[:-1], methods, want)
+        except Exception:
+            pre = [None]
+        if pre:
+            acc.counters['history_cases_failing_after_a_failing_prefix'] += 1
+            return
+    seen = set()
+    for clause, kind, obs, exp, detail in mism:
+        site = f'{family}:{kind}:after-{last}'
+        if (clause, site) in seen:
+            continue
+        seen.add((clause, site))
+        acc.violation(clause, site, case, obs, exp, f'{detail}; history {[list(o) for o in hist]} on {family} {cfg["p"]} at {cfg["pos"][0]}')
+
+
+def run_history_unit(acc, unit, seed):
+    family, k, form, tag, depth = unit['family'], unit['hshape'], unit['form'], unit['methods'], unit['depth']
+    cfg = hist_config(family, k, form, seed)
+    methods = HIST_METHODS[tag]
+    memo = {}
+
+    def want(state):
+        if state not in memo:
+            memo[state] = _hreads(build(family, cfg['p'], _hpos(cfg['pos'][state], form)), methods)
+        return memo[state]
+    # non-triviality of the configuration, measured: the pixel mask handed to the masked operations is True on a pixel
+    # that carries weight in the fresh exact mask of the first position
+    try:
+        mk = _aslist(build(family, cfg['p'], _hpos(cfg['pos'][0], form)).to_mask(method='exact'))[0]
+        sl, ss = mk.get_overlap_slices(HIST_IMG)
+        if sl is None or not (mk.data[ss][cfg['bad'][sl]] > 0).any():
+            acc.notes.append(f'history configuration {family}/{k}/{form}: pixel mask misses the footprint')
+            acc.counters['history_configurations_with_pixel_mask_outside_footprint'] += 1
+    except Exception as e:
+        acc.violation('raises', f'{family}:history-config:{type(e).__name__}', {'what': 'history', 'family': family, 'hshape': k, 'form': form,
+                                                                                'methods': tag, 'history': [['to_mask', 'exact', 5]]}, repr(e), 'no exception')
+        return
+    ops = hist_ops(form, tag)
+    firsts = ops if unit.get('first') is None else [ops[unit['first']]]
+    for n in range(1, depth + 1):
+        for f in firsts:
+            for rest in itertools.product(ops, repeat=n - 1):
+                check_history(acc, family, k, form, tag, [f] + list(rest), seed, cfg=cfg, want=want)
+
+
+# ---------------------------------------------------------------------------
 # integer box logic (always exhaustive)
 # ---------------------------------------------------------------------------
 BOX_LO = range(-6, 7)
@@ -862,6 +1169,27 @@ def _box_frac(c, e, scale):
 # plan / run / replay
 # ---------------------------------------------------------------------------
 
+def history_units(tier):
+    """quick: every history up to depth 2 over the 3-method alphabet for 6 families x 2 shapes x 3 forms, and every history
+    up to depth 3 for the first shape of every family in list form.  thorough: every history up to depth 3 over the
+    3-method alphabet for all 36 configurations, and up to depth 2 over the 5-method alphabet (+ aperture_photometry).
+    Depth-3 explorations are sharded by their first operation."""
+    units = []
+    for fam in FAMILIES:
+        for k in range(len(HIST_SHAPES[fam])):
+            for form in HIST_FORMS:
+                base = {'kind': 'history', 'family': fam, 'hshape': k, 'form': form}
+                deep = tier == 'thorough' or (k == 0 and form == 'list')
+                if tier == 'thorough':
+                    units.append(dict(base, methods='T', depth=2, first=None))
+                if deep:
+                    for i in range(len(hist_ops(form, 'Q'))):
+                        units.append(dict(base, methods='Q', depth=3, first=i))
+                else:
+                    units.append(dict(base, methods='Q', depth=2, first=None))
+    return units
+
+
 def plan(tier, seed):
     units = []
     for fam in FAMILIES:
@@ -878,6 +1206,7 @@ def plan(tier, seed):
             wsum += wgt
         if chunk:
             units.append({'kind': 'masks', 'family': fam, 'shapes': chunk})
+    units += history_units(tier)
     for ix in BOX_LO:
         units.append({'kind': 'overlap', 'ixmin': ix})
     rng = 4 if tier == 'thorough' else 3
@@ -916,6 +1245,8 @@ def run_unit(unit, tier, seed):
                     p2 = with_rep(p2, REASSIGN_REPS[(k // 2) % len(REASSIGN_REPS)])
                 check_reassign(acc, fam, p1, prev[1], p2, groups[-1], positions_first=bool(k % 2))
             prev = (p, groups[0])
+    elif kind == 'history':
+        run_history_unit(acc, unit, seed)
     elif kind == 'overlap':
         ix = unit['ixmin']
         for iy, w, h, ny, nx in itertools.product(BOX_LO, BOX_WH, BOX_WH, IMG, IMG):
@@ -954,6 +1285,8 @@ def replay(case, seed):
         check_pair(acc, tuple(case['a']), tuple(case['b']))
     elif what == 'from_float':
         check_from_float(acc, *case['args'])
+    elif what == 'history':
+        check_history(acc, case['family'], case['hshape'], case['form'], case['methods'], case['history'], seed)
     elif what == 'reassign':
         check_reassign(acc, case['family'], case['params_before'], case['positions_before'], case['params'], case['positions'],
                        positions_first=case.get('positions_first', False))
@@ -1002,4 +1335,41 @@ def describe(tier, seed):
         'overlap_boxes': 'ixmin, iymin in [-6, 6], w, h in 1..4, image shapes 1..5 x 1..5 (67 600 cases) x cutout fill {0, -7.5, nan} x copy',
         'box_pairs': 'all ordered pairs of boxes with ixmin, iymin in [-r, r], w, h in 1..m (quick r=3, m=3; thorough r=4, m=4)',
         'from_float': 'xmin in {0,-3,2,1000} + {0, .25, .5-1e-9, .5, .5+1e-9, .75, -.5, .5-2^-40}, xmax >= xmin from the same 32 values',
+        'history': describe_history(tier, seed),
     }}
+
+
+def describe_history(tier, seed):
+    us = history_units(tier)
+
+    def nhist(u):
+        n = len(hist_ops(u['form'], u['methods']))
+        tot = sum(n ** d for d in range(1, u['depth'] + 1))
+        return tot if u['first'] is None else tot // n
+    cfg = hist_config('circle', 0, 'list', seed)
+    return {
+        'what': 'all sequences of operations up to the depth, each executed on ONE fresh aperture object; afterwards bbox / area / to_mask '
+                '(every method of the alphabet) are compared with a freshly built aperture, every to_mask inside the history likewise, and '
+                'every mask handed out during the history must be unchanged',
+        'operations_list_form': {t: hist_ops('list', t) for t in sorted({u['methods'] for u in us})},
+        'operations_scalar_forms': "the same without ['children']",
+        'operation_meaning': {
+            'to_mask': 'ap.to_mask(method, subpixels); the result is compared with the fresh masks and kept',
+            'area_overlap / do_photometry': "ap.<op>(data[, error], mask=None | pixel mask, method, subpixels); the returned arrays are overwritten",
+            'mask.*': 'on the masks most recently handed out by to_mask (none yet: ap.to_mask() with default arguments): multiply (fill 0 / nan), '
+                      'cutout (view / copy with fill nan), get_values (without / with pixel mask), to_image + get_overlap_slices; returned arrays '
+                      'that are not views of our data are overwritten; mask.write = mask.data[...] = 0 by the caller (skipped when read-only)',
+            'set_positions': f'ap.positions = positions shifted by {list(HIST_SHIFT)} / back (the fresh aperture follows)',
+            'copy.modify': 'c = ap.copy(): area_overlap with pixel mask, masks of c overwritten, positions and first size parameter of c re-assigned, do_photometry',
+            'children': 'ap[0].area_overlap(pixel mask), its mask overwritten; ap[1:].do_photometry; masks of every "for a in ap" child overwritten',
+            'ApertureStats / aperture_photometry': 'built on the aperture object with error and pixel mask; sum, sum_err, centroid, sum_aper_area read',
+        },
+        'configurations': {'families': FAMILIES, 'shapes': {fam: [hist_shape(fam, k) for k in range(2)] for fam in FAMILIES},
+                           'forms': {'scalar-inside': 'scalar aperture inside the image', 'scalar-cut': 'scalar aperture cut by two image edges',
+                                     'list': 'three positions: inside, cut by two edges, no overlap with the image'},
+                           'positions_of_the_list_form': cfg['pos'][0], 'image_shape': list(HIST_IMG),
+                           'pixel_mask': 'True where (y + 2x) % 3 == 0 (measured per configuration: hits a pixel of non-zero exact weight)'},
+        'explorations': sorted({(u['hshape'], u['form'], u['methods'], u['depth']) for u in us}),
+        'histories_per_family': {fam: sum(nhist(u) for u in us if u['family'] == fam) for fam in FAMILIES},
+        'reporting_rule': 'a failing history is reported only when the history without its last operation passes (the site names that last operation)',
+    }
